@@ -351,7 +351,7 @@ def run(ctx):
                         "props/c10.py session driver (outcome contract)"]
     ctx.assumptions = ["the LTS is the code: checked on the recorded traces only (every event an enabled transition, abstract state equal), not proved",
                        "schedules explored = those the OS produces under seeded sched_yield/usleep perturbation (DESIGN C10 fallback), not a cooperative scheduler that owns every blocking point",
-                       "progress (C10_stop_terminates) is proved only as deadlock-freedom of the stop phase; the decreasing measure is a _statement",
+                       "progress (C10_stop_terminates) assumes weak fairness of the thread scheduler (no thread that can make progress is starved for ever) and says nothing about time bounds; the search itself (a helper inside negaScout) is abstracted as always able to return",
                        "MPI cluster communicators, NUMA binding, book moves (waitForStop=false path) are outside the model"]
     # (2) prove
     ok, info = coqbuild.prove(ctx, PROP_FILE, timeout=ctx.scale(1500, 3600))
@@ -374,7 +374,7 @@ def run(ctx):
         if rc != 0 or not out.startswith("OK"):
             ctx.violation("C10 model self-test failed: %s" % out.strip()[:300], {"sim": out, "n": n}, no_failing_input=True)
     # exhaustive exploration of small instances: deadlock freedom and fair termination of the stop phase
-    # (complements C10_stop_terminates_partial; the general measure proof is the _statement)
+    # (cross-check of C10_stop_no_deadlock / C10_stop_terminates: SCC analysis + the extracted measure mu on every edge)
     exps = ctx.scale([("", 2, 2), ("0", 2, 2), ("0,0", 1, 1), ("0,1", 1, 1), ("0,1", 2, 1)],
                      [("", 3, 3), ("0", 3, 3), ("0,0", 2, 2), ("0,1", 2, 2), ("0,0,0", 1, 1), ("0,1,1", 1, 1), ("0,1,2", 1, 1)])
 
@@ -393,8 +393,10 @@ def run(ctx):
             tot += int(kv.get("states", 0))
             ctx.count("exhaustive_states", int(kv.get("states", 0)))
             ctx.count("exhaustive_stop_phase_states", int(kv.get("stop_states", 0)))
+            ctx.count("exhaustive_measure_checked_edges", int(kv.get("measure_edges", 0)))
     ctx.notes["exhaustive_exploration"] = ("all interleavings of the LTS for the trees %s (parent lists; jobs / searches bounded): no deadlock and no "
-                                           "weakly-fair cycle inside the stop phase (SCC analysis), %d states" % ([c[0] or "-" for c in exps], tot))
+                                           "weakly-fair cycle inside the stop phase (SCC analysis); the proved termination measure (WorkersMeasure.mu, extracted) decreases on every "
+                                           "state-changing thread transition of the stop phase except the engine thread's idle wake-up cycle; %d states" % ([c[0] or "-" for c in exps], tot))
     # corpus of past failures first
     corpus = os.path.join(VERIF, "corpus", "c10.json")
     if os.path.exists(corpus):
